@@ -723,3 +723,6 @@ package sam
 //@   after call:Fprintln#2: assert [c12.order] AP == recv(cPair)[posOf(counter)] && AP.idx == counter && written(os.Stdout)[len(written(os.Stdout)) - 1] == ">" + AP.queryname + "\n"
 //@   after call:Fprintln#1: assert [c12.refrecord] written(os.Stdout)[len(written(os.Stdout)) - 1] == ">" + AP.refname + "\n"
 //@   before send#5: assert [c12.all] implies(p == "stdout", gDone == len(recv(cPair)) && len(written(os.Stdout)) == ite(omitRef, 2, 4) * len(recv(cPair)))
+
+//@ func ToMultiAlign spawns
+//@   modifies everything
